@@ -52,6 +52,7 @@ func checkProperty(pd *propDef, repo, tier string, seed int, controls bool, star
 	}
 	var results []cfgResult
 	var nFuncs, nPkgs int
+	var renameNotes []string
 	for _, cf := range configsFor(tier) {
 		p, err := Load(repo, cf.env, cf.tags, nil)
 		if err != nil {
@@ -64,6 +65,7 @@ func checkProperty(pd *propDef, repo, tier string, seed int, controls bool, star
 		results = append(results, cfgResult{cf.name, selectObls(all, pd.sels)})
 		if nFuncs == 0 {
 			nFuncs, nPkgs = len(p.Funcs), len(p.Universe)
+			renameNotes = p.RenameNotes
 		}
 	}
 	var primary []Obligation
@@ -251,6 +253,7 @@ func checkProperty(pd *propDef, repo, tier string, seed int, controls bool, star
 			"checker_failures":         fatal,
 			"controls":                 ctrl,
 			"notes":                    notes,
+			"renamed_anchors":          renameNotes,
 			"exhaustive":               false,
 		},
 		Assumptions: pd.assumptions,
